@@ -76,9 +76,9 @@ REQUIRED_BINS = [
     "se0_just_below_5us_no_reset", "se0_split_by_glitch", "se0_just_below_2p5us_suspended",
     "hs_via_chirp", "hs_via_resume", "train_state_just_below_2p5us", "train_state_split_by_glitch",
     "train_two_pairs_then_junk", "handshake_timeout_fallback", "handshake_deadline_inside_chirp_state",
-    "suspend_fs", "suspend_ls", "suspend_hs", "idle_split", "non_idle_3ms_no_suspend",
+    "suspend_fs", "suspend_hs", "non_idle_3ms_no_suspend", "non_idle_3ms_no_suspend_ls",
     "restriction_at_hs", "restriction_in_hs_detect_window",
-    "reset_while_restricted", "restriction_toggled_near_reset", "hs_window_j_at_decision", "hs_window_nonj_at_decision",
+    "reset_while_restricted", "restriction_toggled_near_reset", "hs_window_j_at_decision",
     "hs_se0_split", "fs_suspend_after_hs_suspend", "disconnect_used", "bus_busy_used", "vbus_loss_at_hs",
 ]
 REQUIRED_EVENTS = ["output_changes", "bus_reset_periods_judged", "hs_entries_judged", "suspend_entries_judged",
@@ -472,9 +472,10 @@ def make_train(rng, kind, fresh=False):
         train = out
         marks.append(("scan", want, pairs))                 # what a receiver of this train waits for at its end
     elif fresh:
-        # every completing J is exactly as long as the device needs (152): the line is SE0 from the very cycle HS begins
+        # every completing J is exactly as long as the device needs (152) and is followed by SE0: the line is SE0 from
+        # the very cycle HS operation begins (the driver notices HS during the SE0 gap and stops the train)
         for _ in range(4):
-            train += [(FS_K, rng.randint(152, 158)), (FS_J, 152)]
+            train += [(FS_K, rng.randint(152, 158)), (FS_J, 152), (SE0, 4)]
     else:
         for _ in range(4):
             train += [(FS_K, good()), (FS_J, good())]
@@ -915,7 +916,7 @@ async def plan_resume_then_fs_suspend(d):
     if d.hs_op() or d.in_chirp_mode() or d.out["susp"]:
         return
     d.mark("fs_suspend_after_hs_suspend")
-    if await fs_suspend(d, "plain" if rng.random() < 0.35 else None):
+    if await fs_suspend(d, "plain" if rng.random() < 0.55 else None):
         await suspended_games(d, "resume")
         await d.wait(10)
         await d.line(d.idle(), 50)
@@ -940,6 +941,10 @@ async def plan_hs_reset_chain(d):
 async def plan_timeout(d):
     rng = d.rng
     await fs_to_handshake(d, "partial", busy_p=0.3, restr_p=0.2)
+    if rng.random() < 0.5 and not d.in_chirp_mode() and not d.hs_op():
+        # idle right after the fall-back, far shorter than 3 ms: no suspend expected (idle timer must restart at the fall-back)
+        d.mark("idle_after_fallback")
+        await d.line(d.idle(), rng.randint(45000, 100000))
     if rng.random() < 0.5:
         await se0_probes(d, rng.randint(1, 4), T_5US, allow_reset=False)
         return
@@ -1267,11 +1272,14 @@ def workload_bins(res, d, out_tr, info, end):
     for t in m.get("hs_se0_split", []):
         res.bin("hs_se0_split")
     for t in m.get("hs_se0_from_entry", []):
-        if info["hsop"].at(t):
-            res.bin("hs_se0_from_first_hs_cycle")
+        for h, e in info["hs_runs"]:
+            if h <= t and (e is None or t < e) and line.all_in(h - 1, t, lambda v: v == SE0):
+                res.bin("hs_se0_from_first_hs_cycle")
     for t in m.get("fs_suspend_after_hs_suspend", []):
         if any(s >= t for s, _f in info["susp_runs"]):
             res.bin("fs_suspend_after_hs_suspend")
+    for t in m.get("idle_after_fallback", []):
+        res.bin("idle_right_after_fallback")
     for t in m.get("disconnect", []):
         res.bin("disconnect_used")
     for t in m.get("busy", []):
